@@ -226,7 +226,7 @@ def impl_resolve(h, name):
             kpath = os.readlink(f'/proc/self/fd/{f.fileno()}')
             return ('ok', str(p), f.read(), kpath)
     except Exception as e:
-        return ('err', classify(e))
+        return ('err', classify(e), str(e))
 
 
 def comps_of(s):
@@ -328,20 +328,23 @@ def check_tree(ctx, R, rng, nnames, do_rrq, do_udp):
         h = make_handler(base)
         FUEL = 3000
         impls = [impl_resolve(h, n) for n in names]
-        models = R.batch('resolve', [(wtree, base_comps, n, FUEL) for n in names])
-        joins = R.batch('join', [(base_comps, n) for n in names])
+        if R is not None:
+            models = R.batch('resolve', [(wtree, base_comps, n, FUEL) for n in names])
+            joins = R.batch('join', [(base_comps, n) for n in names])
+        else:                   # the model does not build: oracle only
+            models = joins = [None] * len(names)
         treedesc = dict(tree=describe(top), tmp=tmp)
         for name, got, mv, jv in zip(names, impls, models, joins):
-            m = model_outcome(mv)
+            m = model_outcome(mv) if mv is not None else None
             nontriv = ('..' in name or name.startswith('/') or got[0] == 'err'
                        or any(c in name for c in ('lnk', 'loop', 'out', 'dl', 'abs', 'up')))
             ctx.case(('resolve', treedesc['tree'], name), nontriv,
                      'served' if got[0] == 'ok' else 'refused-' + got[1])
-            g = got[:3]
+            g = got[:3] if got[0] == 'ok' else got[:2]
             if m == ('err', 'OutOfFuel'):
                 ctx.stat('model-out-of-fuel')
                 continue
-            if g != m:
+            if m is not None and g != m:
                 ctx.violation('resolve_path/model-mismatch',
                               f'resolve_path({name!r}) + open: implementation {brief(g)}, model {brief(m)}',
                               dict(api='resolve', name=name, impl=brief(g), model=brief(m), **treedesc))
@@ -376,13 +379,13 @@ def check_tree(ctx, R, rng, nnames, do_rrq, do_udp):
             # ---- pathlib join
             pp = PurePosixPath(realbase) / name
             want = [len(pp.root), list(pp.parts[1:] if pp.root else pp.parts)]
-            mj = [jv[0], [text(c) for c in jv[1]]]
+            mj = [jv[0], [text(c) for c in jv[1]]] if jv is not None else want
             if want != mj:
                 ctx.violation('pathlib-join/model-mismatch', f'base / {name!r}: pathlib {want}, model {mj}',
                               dict(api='join', name=name, pathlib=want, model=mj))
         # ---- Path.resolve() specification, both modes, on the joined paths
         sample = rng.sample(names, min(len(names), max(20, nnames // 3)))
-        for strict in (False, True):
+        for strict in ((False, True) if R is not None else ()):
             full = [str(PurePosixPath(realbase) / n) for n in sample]
             ms = R.batch('realpath', [(wtree, f, FUEL, strict) for f in full])
             for n, f, mv in zip(sample, full, ms):
@@ -403,8 +406,11 @@ def check_tree(ctx, R, rng, nnames, do_rrq, do_udp):
                                   f'Path({f!r}).resolve(strict={strict}) = {r}, specification says {m}',
                                   dict(api='realpath', path=f, strict=strict, impl=r, model=m, **treedesc))
         # ---- the real do_RRQ / handle ladder, in process
+        if do_rrq and R is None:
+            codes = {'PermissionError': 2, 'FileNotFoundError': 1, 'IsADirectoryError': 0, 'NotADirectoryError': 0,
+                     'OSError:ELOOP': 0, 'OSError:ENAMETOOLONG': 0, 'RuntimeError': 0}
         if do_rrq:
-            codes = {c[0].decode(): (c[1][0] if c[1] else None) for c in R.call('codes', [])}
+            codes = codes if R is None else {c[0].decode(): (c[1][0] if c[1] else None) for c in R.call('codes', [])}
             picks = [n for n in rng.sample(names, min(len(names), do_rrq))
                      if n and all(0x20 <= ord(ch) for ch in n)]
             for n in picks:
@@ -417,13 +423,18 @@ def check_tree(ctx, R, rng, nnames, do_rrq, do_udp):
                 else:
                     want = ('ERROR', codes.get(got[1]))
                     ok = r == want
-                if r == ('CRASH', 'UnicodeEncodeError') and want == ('ERROR', 0) and not n.isascii():
+                if r == ('CRASH', 'UnicodeEncodeError') and want == ('ERROR', 0) and not got[2].isascii():
                     ctx.stat('handler-crash-nonascii-error-message')   # nothing served; outside C18's statement
                     continue
                 if not ok:
                     ctx.violation('do_RRQ/ladder', f'RRQ {n!r}: handler answered {brief(r)}, expected {brief(want)} '
                                                    f'(resolve_path outcome {brief(got[:3])})',
                                   dict(api='rrq', name=n, answer=brief(r), expected=brief(want), **treedesc))
+                if got[:2] == ('err', 'PermissionError') and r != ('ERROR', 2):
+                    ctx.violation('do_RRQ/access-violation-code',
+                                  f'RRQ {n!r} is refused by resolve_path (outside the base) but the handler answered '
+                                  f'{brief(r)} instead of ERROR 2 (access violation)',
+                                  dict(api='rrq', name=n, answer=brief(r), **treedesc))
                 if r[0] == 'DATA' and SECRET in r[1]:
                     ctx.violation('resolve_path/served-outside', f'RRQ {n!r} answered with secret content',
                                   dict(api='rrq', name=n, **treedesc))
@@ -453,7 +464,7 @@ def check_tree(ctx, R, rng, nnames, do_rrq, do_udp):
                     elif r[0] == 'ERROR' and got[0] == 'err' and got[1] == 'PermissionError' and r[1] != 2:
                         ctx.violation('udp/code', f'real server answered {n!r} with code {r[1]}, expected 2',
                                       dict(api='udp', name=n, **treedesc))
-                    elif r[0] == 'TIMEOUT' and not n.isascii() and got[0] == 'err' and \
+                    elif r[0] == 'TIMEOUT' and got[0] == 'err' and not got[2].isascii() and \
                             got[1] not in ('PermissionError', 'FileNotFoundError'):
                         # ERRORPacket cannot encode the non-ASCII OSError message: no answer (nothing served)
                         ctx.stat('handler-crash-nonascii-error-message')
@@ -491,13 +502,29 @@ def brief(r):
     return [x if not isinstance(x, (bytes, bytearray)) else (bytes(x[:24]).hex() + ('...' if len(x) > 24 else '')) for x in r]
 
 
+def _dedupe(ctx, per_signature=2):
+    """report each signature at most twice so that one noisy class cannot hide the others"""
+    seen = {}
+    orig = ctx.violation
+    def violation(sig, what, replay):
+        seen[sig] = seen.get(sig, 0) + 1
+        if seen[sig] <= per_signature:
+            orig(sig, what, replay)
+    ctx.violation = violation
+
+
 def run(ctx, build):
+    _dedupe(ctx)
     logging.disable(logging.CRITICAL)
-    R = ctx.runner('Resolve')
+    try:
+        R = ctx.runner('Resolve')
+    except lib.BuildError:
+        R = None                # fail closed elsewhere (the proof build is broken too); still hunt for an input
+        ctx.stat('model-unavailable')
     rng = ctx.rng
-    ntrees = 260 if ctx.thorough else 50
+    ntrees = 700 if ctx.thorough else 200
     if ctx.widen:
-        ntrees = max(ntrees, 120)
+        ntrees = max(ntrees, 300)
     for i in range(ntrees):
         check_tree(ctx, R, rng, nnames=260 if ctx.thorough else 170,
                    do_rrq=40 if (ctx.thorough or i < 10) else 0,
